@@ -68,7 +68,7 @@ _ANSI_CODE_TO_EFFECT:Dict[int, Tuple[AnsiParamEffect, bool]] = {
     7: (AnsiParamEffect.SWAP_BG_FG, AnsiParamEffectFn.APPLY_SETTING),
     8: (AnsiParamEffect.VISIBILITY, AnsiParamEffectFn.APPLY_SETTING),
     9: (AnsiParamEffect.CROSSED_OUT, AnsiParamEffectFn.APPLY_SETTING),
-    10: (AnsiParamEffect.FONT_TYPE, AnsiParamEffectFn.APPLY_SETTING),
+    10: (AnsiParamEffect.FONT_TYPE, AnsiParamEffectFn.CLEAR_SETTING),
     11: (AnsiParamEffect.FONT_TYPE, AnsiParamEffectFn.APPLY_SETTING),
     12: (AnsiParamEffect.FONT_TYPE, AnsiParamEffectFn.APPLY_SETTING),
     13: (AnsiParamEffect.FONT_TYPE, AnsiParamEffectFn.APPLY_SETTING),
